@@ -159,6 +159,12 @@ def run(ctx, res):
         comp = components(case['doc'])[0]
         rest = [i for i in ids if i not in comp]
         dup_items.append((case, [[comp + rest], [comp]]))
+        comps = components(case['doc'])
+        if len(comps) >= 2:
+            # the repeated map in two sections that are not next to each other (an unrelated section in between), in every position
+            others = sum(comps[1:], [])
+            dup_items.append((case, [[comp], [others], [comp]]))
+            dup_items.append((case, [[others], [comp], [comp + []]]) if ctx.rng.random() < 0.5 else (case, [[comp], [comp], [others]]))
     for (case, lay), o in zip(dup_items, run_layouts(ctx, dup_items)):
         res.evaluations += 1
         res.count('duplicate-section:' + o[0])
